@@ -1,7 +1,20 @@
 #include "gens.hpp"
 namespace vf {
 rc::Gen<Case> genScriptCase(const std::string &id, int tier);
+rc::Gen<Case> genFileCase(const std::string &id, int tier);
+rc::Gen<std::vector<Op>> genFileOpsFor(int tier, bool layouts);
+rc::Gen<std::vector<Op>> genScriptOpsFor(const std::string &id, int tier);
 rc::Gen<Case> genFor(const std::string &id, int tier) {
+    using namespace gh;
+    if (id == "C03") {
+        // from scratch, or load a generated file and edit it; always ends with a padding parameter that sweeps the section length
+        auto one = [](rc::Gen<Op> o) { return rc::gen::map(o, [](Op x) { return std::vector<Op>{x}; }); };
+        auto pad = one(op("padp", {uni(0, 255), uni(0, 3)}));
+        auto scratch = concat({genScriptOpsFor("C03", tier), pad});
+        auto edited = concat({genFileOpsFor(tier, true), one(op("load", {})), genScriptOpsFor("C03e", tier), pad});
+        return asCase(rc::gen::oneOf(scratch, scratch, edited));
+    }
+    if (id == "C02" || id == "C04" || id == "C16" || id == "C12") return genFileCase(id, tier);
     return genScriptCase(id, tier);
 }
 }
